@@ -92,6 +92,10 @@ def from_bipartite_graph(G, dual=False):
             else:
                 H.add_node_to_edge(u, v, direction="out")
         else:
+            # an undirected edge may be handed back as (edge, node): orient it by the
+            # `bipartite` attribute instead of assuming (node, edge)
+            if u in edges:
+                u, v = v, u
             H.add_node_to_edge(v, u)
 
     return H.dual() if dual else H
